@@ -1403,7 +1403,9 @@ class BayesianNetwork(DAG):
 
         # Step 6: Postprocess and return
         if include_latents:
-            return samples.astype("category")
+            return samples.loc[
+                :, [col for col in samples.columns if col in self.nodes()]
+            ].astype("category")
         else:
             return (samples.loc[:, list(set(self.nodes()) - self.latents)]).astype(
                 "category"
